@@ -1,6 +1,6 @@
 """C01 - a command line is accepted iff it is a sentence of the spec's language."""
-import collections, random
-from vlib import core, specgen as g, refenum, structeq
+import collections, os, random
+from vlib import core, specgen as g, refenum, structeq, harvest, groups as G
 from props import refcommon as rc
 
 PROP = "C01"
@@ -49,6 +49,39 @@ def run(tier, wd):
                           {"engine": "structeq", "spec": s_["str"], "ast": s_["ast"], "path": v[1]})
         else:
             rep.violation("structural: compiling the well-formed spec %r: %s" % (s_["str"], v), {"engine": "structeq", "spec": s_["str"], "ast": s_["ast"], "path": v})
+    # binding B on the repository's own tests: every level validated during `go test -tags verif` is a record
+    # (spec, declarations, own tokens, verdict); TLC evaluates RefSemantics on each, StructEq first validates the AST read from the string
+    sub = os.path.join(wd, "harvest")
+    os.makedirs(sub, exist_ok=True)
+    nev, recs, rc_ = harvest.record(sub)
+    hprogs, hspecs, hgroups, hverdicts, hskipped = harvest.to_cases(recs)
+    hv = structeq.check(rep, sub, binpath, hprogs, hspecs, label_="hstruct")
+    usable = set(i for i, v in enumerate(hv) if v == "equivalent")
+    for i, v in enumerate(hv):
+        if v != "equivalent":
+            rep.notes.append("harvested spec %r not used: %s" % (hspecs[i]["str"], v if isinstance(v, str) else "AST read from the string is not equivalent to the compiled automaton"))
+    keep = [k for k, grp in enumerate(hgroups) if grp["members"][0]["si"] in usable]
+    hres, hpreds = G.predict(sub, hprogs, hspecs, [hgroups[k] for k in keep])
+    rep.add_tlc(hres)
+    hcnt = collections.Counter()
+    for k, pr in zip(keep, hpreds):
+        pred, acc = pr["preds"][0], hverdicts[k]
+        m = hgroups[k]["members"][0]
+        rep.cov["evaluations"] += 1
+        if acc == bool(pred["acc"]):
+            hcnt["ok"] += 1
+        elif pred["uncl"]:
+            hcnt["unclaimed"] += 1
+        elif pred["accG"] != pred["acc"] and acc == bool(pred["accG"]):
+            hcnt["known:Dev_GreedyGroup"] += 1
+            rep.known("Dev_GreedyGroup", "repository test: spec=%r argv=%s" % (hspecs[m["si"]]["str"], m["argv"]))
+        else:
+            hcnt["violation"] += 1
+            rep.violation("repository test run: spec=%r env=%s argv=%s was %s, reference %s" % (hspecs[m["si"]]["str"], m["env"], m["argv"],
+                          "accepted" if acc else "rejected", "accepts" if pred["acc"] else "rejects"),
+                          {"engine": "harvest", "spec": hspecs[m["si"]]["str"], "prog": hprogs[hspecs[m["si"]]["prog"]], "env": m["env"], "argv": m["argv"]})
+    rep.cov["harvest"] = {"events": nev, "records": len(recs), "specs": len(hspecs), "validated": dict(hcnt), "unparsable": len(hskipped)}
+    rep.cov["traces_validated_against_impl"] += len(keep)
     rep.cov["structural_specs"] = dict(sv)
     rep.cov["evaluations"] += len(big)
     rep.cov["classes"] = dict(cnt)
@@ -58,7 +91,8 @@ def run(tier, wd):
                        "(TLC Init enumerates, RefSemantics predicts, the library executes each); non-trivial = accepted by the reference, "
                        "or rejected without containing an undeclared option token. Structural part: for 1500 (quick) / 20000 (thorough) further random specs "
                        "TLC explores the product of the subset constructions of the real compiled automaton and of the AST's automaton (equal acceptance in every "
-                       "reachable pair = equal languages for inputs of any length)")
+                       "reachable pair = equal languages for inputs of any length). Harvest: every (spec, declarations, own tokens, verdict) record "
+                       "of the repository's own test-suite run with the hooks on is validated by TLC against RefSemantics")
     rep.assumptions += ["standard program: flags -a/--aa, -b; valued -o/--out, -e; arguments X, Y; all declared with a recording value type",
                         "unclaimed cases (DESIGN 3.6) produce no verdict"]
     return rep.finish()
